@@ -9,6 +9,7 @@ import FeatModel.Lemmas.C15Dof
 import FeatModel.Lemmas.C15Repro
 import FeatModel.Lemmas.C15Conform
 import FeatModel.Lemmas.C15Chain
+import FeatModel.Lemmas.C15Hess
 import FeatModel.Lemmas.C15AnyCell
 /-!
 # C15 — finite-element bases are unisolvent, derivative-consistent and conforming: property theorems
@@ -251,6 +252,38 @@ theorem C15.chain_rule_first_order (f : Fam) (m : Mesh) (c : Nat) (x : List Rat)
         (ce.phi.getD i { value := 0, grad := [], hess := [] }).grad k
       = evalAt x (tab.grad ((slotPerm f m c).getD i i) k) :=
   chain_rule_ev hd ht he hg hdet hi hk
+
+/-- Second-order chain rule of the model of `ParametricEvaluator`, tied to the output of the `ev` / `evcfg` ops
+    (`evalCell`), for every mesh, cell and point with `det J ≠ 0` (affine and multilinear cells, pointwise): with the
+    returned Jacobian `J`, Hessian tensor `HT` of the transformation, gradient `g` and Hessian `H` of local basis
+    function `i`,  `(Jᵀ H J)[p][q] + Σ_m g[m]·HT[m][p][q] = ∂²φ̂_i/∂x̂_p∂x̂_q (x̂)`,
+    i.e. `H = J⁻ᵀ (ĥess φ̂_i − Σ_m g_m · HT_m) J⁻¹` is the Hessian of `φ̂_i ∘ T⁻¹` at `T(x̂)`.  The dependency of `hess` on
+    the reference *gradient* and on the Hessian tensor / inverse Jacobian of the transformation is explicit in
+    `evalCell_hess` (`physHess`), whatever config mask was requested. -/
+theorem C15.hess_chain_rule (f : Fam) (m : Mesh) (c : Nat) (x : List Rat) (tab : BasisTab) (ce : CellEval)
+    (hd : m.dim = 1 ∨ m.dim = 2 ∨ m.dim = 3) (ht : tabOf f m.kind m.dim = some tab)
+    (he : evalCell f m c x = some ce) (hg : tab.hasGrad = true) (hh : tab.hasHess = true)
+    (hdet : det m.dim (jacMat m.kind m.dim (m.entVerts m.dim c) x) ≠ 0)
+    (i : Nat) (hi : i < tab.nloc) (p q : Nat) (hp : p < m.dim) (hq : q < m.dim) :
+    hessPullback m.dim (jacMat m.kind m.dim (m.entVerts m.dim c) x)
+        (ce.phi.getD i { value := 0, grad := [], hess := [] }).hess
+        (ce.phi.getD i { value := 0, grad := [], hess := [] }).grad
+        (hessTen m.kind m.dim (m.entVerts m.dim c) x) p q
+      = evalAt x (tab.hes ((slotPerm f m c).getD i i) p q) :=
+  hess_chain_rule_ev hd ht he hg hh hdet hi hp hq
+
+/-- The Hessian the model returns for basis function `i` as an explicit function of *all* its inputs: reference
+    Hessian, reference gradient, inverse Jacobian and Hessian tensor of the transformation. -/
+theorem C15.hess_depends_on_ref_grad_and_hess_ten (f : Fam) (m : Mesh) (c : Nat) (x : List Rat) (tab : BasisTab)
+    (ce : CellEval) (ht : tabOf f m.kind m.dim = some tab) (he : evalCell f m c x = some ce)
+    (hh : tab.hasHess = true) (i : Nat) (hi : i < tab.nloc) :
+    (ce.phi.getD i { value := 0, grad := [], hess := [] }).hess
+      = physHess m.dim (inv m.dim (jacMat m.kind m.dim (m.entVerts m.dim c) x))
+          (hessTen m.kind m.dim (m.entVerts m.dim c) x)
+          (fun k => ((List.range m.dim).map fun k =>
+            evalAt x (tab.grad ((slotPerm f m c).getD i i) k)).getD k 0)
+          (fun k l => evalAt x (tab.hes ((slotPerm f m c).getD i i) k l)) :=
+  evalCell_hess ht he hh hi
 
 /-! ## tensor-product tables (extension round) -/
 
